@@ -134,3 +134,89 @@ Theorem C14_gff_line_ends : forall lines : list (list N * bool),
   Forall (fun le => ok_line (fst le)) lines -> read_gff (FastaLayout.render lines) = read_gff_lines (map fst lines).
 Proof. exact gff_file_bytes_read. Qed.
 Print Assumptions C14_gff_line_ends.
+
+(* ---- from the parsed files to the regions the variant callers use (ConsumerModel.v mirrors CDSRegion2fromGenbank,
+   CDSRegion2fromGFF, RegionsFromGenbank, RegionsFromGFF, codes; compared with the code on the bytes of whole files on every run) ---- *)
+From GF Require Import RegionsModel LocationModel LocationProofs ConsumerModel ConsumerProofs.
+(* GenBank: a CDS feature whose location qualifier is the text of the feature's location (either spelling of a reverse join) and whose
+   /gene, /codon_start, /translation are the feature's gives exactly the region of the AST-level model *)
+Theorem C14_genbank_feature_to_region : forall form1 f t (g : gbfeat) m,
+  f_segs f <> [] -> (1 <= f_cstart f)%nat -> (f_cstart f - 1 <= length (gb_full form1 f))%nat ->
+  gf_loc g = render (gb_loc form1 f) -> gf_info g = Some m ->
+  info_get (bs "gene") m = Some (f_name f) ->
+  info_get (bs "codon_start") m = Some (dec_nat (f_cstart f)) ->
+  info_get (bs "translation") m = Some t ->
+  (if form1 then gb_positions_form1 f else gb_positions_form0 f) <> [] ->
+  (length (if form1 then gb_positions_form1 f else gb_positions_form0 f) mod 3 = 0)%nat ->
+  region_from_gbfeat g = Ok (cregion_of (region_gb form1 f t)).
+Proof. exact region_from_gbfeat_read. Qed.
+Print Assumptions C14_genbank_feature_to_region.
+(* GFF3: the rows of one ID (put in coordinate order by RegionsFromGFF), one per segment, all on the feature's strand, the first
+   carrying Name, the first in translation order carrying the phase, give the region of the AST-level model - or its refusal *)
+Theorem C14_gff_rows_to_region : forall genome (f : feat) (fs : list gfeat) rest,
+  fs <> [] -> bounds fs = map zpair (sort_segs (f_segs f)) ->
+  Forall (fun r => g_strand r = [if f_rev f then 45 else 43]%N) fs ->
+  attr_get (bs "Name") (g_attrs (hd dflt_row fs)) = Some (f_name f :: rest) ->
+  g_phase (if f_rev f then last fs dflt_row else hd dflt_row fs) = (f_cstart f - 1)%nat ->
+  (f_cstart f - 1 <= length (if f_rev f then concat (map rrange (rev (sort_segs (f_segs f)))) else concat (map range (sort_segs (f_segs f)))))%nat ->
+  gff_positions f <> [] ->
+  forallb (fun p => Nat.leb 1 p && Nat.leb p (length genome)) (gff_positions f) = true ->
+  region_from_gfeats genome fs = bind (region_gff genome f) (fun a => Ok (cregion_of a)).
+Proof. exact region_from_gfeats_read. Qed.
+Print Assumptions C14_gff_rows_to_region.
+(* hence, for a consistent annotation (the /translation is what the CDS translates to), the two functions of the code return the
+   SAME region from the two parsed descriptions of one feature: the AST-level theorem carried down to what the code computes *)
+Theorem C14_parsed_regions_gb_eq_gff : forall genome form1 f t (g : gbfeat) m (fs : list gfeat) rest,
+  segs_ascending (f_segs f) -> gff_translation genome f = Ok (t ++ [42%N]) ->
+  f_segs f <> [] -> (1 <= f_cstart f)%nat -> (f_cstart f - 1 <= length (gb_full form1 f))%nat ->
+  gf_loc g = render (gb_loc form1 f) -> gf_info g = Some m ->
+  info_get (bs "gene") m = Some (f_name f) -> info_get (bs "codon_start") m = Some (dec_nat (f_cstart f)) -> info_get (bs "translation") m = Some t ->
+  fs <> [] -> bounds fs = map zpair (sort_segs (f_segs f)) -> Forall (fun r => g_strand r = [if f_rev f then 45 else 43]%N) fs ->
+  attr_get (bs "Name") (g_attrs (hd dflt_row fs)) = Some (f_name f :: rest) ->
+  g_phase (if f_rev f then last fs dflt_row else hd dflt_row fs) = (f_cstart f - 1)%nat ->
+  gff_positions f <> [] -> (length (gff_positions f) mod 3 = 0)%nat ->
+  forallb (fun p => Nat.leb 1 p && Nat.leb p (length genome)) (gff_positions f) = true ->
+  region_from_gbfeat g = region_from_gfeats genome fs.
+Proof. exact parsed_regions_gb_eq_gff. Qed.
+Print Assumptions C14_parsed_regions_gb_eq_gff.
+(* ... and from the BYTES of a GenBank flat file: any other sections, a FEATURES table of coding features each written with the
+   location text of its AST feature (on one line or continued over several) and /gene, /codon_start, /translation, ORIGIN cut into
+   numbered chunks, any LF / CRLF mixture: the regions the code hands to the variant caller are exactly those of the AST-level model,
+   in file order, with the non-coding positions of `codes` *)
+Theorem C14_genbank_bytes_to_regions : forall (pre : list section) (items : list (bool * feat * list N * wfeat)) (n : nat)
+        (olines : list (list (list N * list N))) (lines : list (list N * bool)),
+  Forall sec_ok pre -> Forall other_name pre -> items <> [] ->
+  Forall (fun x => writes_cds (fst (fst (fst x))) (snd (fst (fst x))) (snd (fst x)) (snd x)) items ->
+  Forall (Forall piece_ok) olines -> Forall body_line_ok (map origin_line olines) ->
+  Forall (fun le => ok_line (fst le)) lines ->
+  map fst lines = flatten (pre ++ [features_section (map snd items); origin_section n olines]) ->
+  regions_of_genbank_text (FastaLayout.render lines) =
+  let rs := map (fun x => cregion_of (region_gb (fst (fst (fst x))) (snd (fst (fst x))) (snd (fst x)))) items in
+  bind (codes rs (length (concat (map (fun l => concat (map snd l)) olines)))) (fun inter => Ok (rs, inter)).
+Proof. exact genbank_bytes_to_regions. Qed.
+Print Assumptions C14_genbank_bytes_to_regions.
+(* the list level of RegionsFromGFF: coding rows grouped by ID (each feature's rows next to one another, in coordinate order) give one
+   region per ID in order of first appearance - no row strays into a neighbouring feature - the named ones then sorted by start *)
+From GF Require Import ConsumerGff.
+Theorem C14_gff_regions_grouped : forall genome (gs : list group) (rs : list cregion),
+  Forall group_ok gs -> NoDup (map fst gs) ->
+  Forall2 (fun g r => region_from_gfeats genome (snd g) = Ok r) gs rs ->
+  Forall (fun r => cr_name r <> []) rs ->
+  regions_from_gff (rows_of gs) genome =
+  bind (codes rs (length genome)) (fun inter => Ok (TopK.ssort cregion (fun a b => (cr_start a <? cr_start b)%Z) rs, inter)).
+Proof. exact regions_from_gff_grouped. Qed.
+Print Assumptions C14_gff_regions_grouped.
+(* ... and from the BYTES of a GFF3 file (version, sequence-region lines, well-formed rows, ##FASTA whose single record is the
+   reference), any LF / CRLF mixture *)
+Theorem C14_gff_bytes_to_regions : forall (regs : list (list N * (nat * nat))) (rows : list grow) (flines : list (list N)) (r : rcd) (genome : list N)
+        (gs : list group) (rs : list cregion) (lines : list (list N * bool)),
+  Forall wf_region regs -> rows <> [] -> Forall wf_row rows ->
+  fasta_of flines = Ok (Some [r]) -> degap (r_seq r) = genome ->
+  map feat_of rows = rows_of gs -> Forall group_ok gs -> NoDup (map fst gs) ->
+  Forall2 (fun g x => region_from_gfeats genome (snd g) = Ok x) gs rs -> Forall (fun x => cr_name x <> []) rs ->
+  Forall (fun le => ok_line (fst le)) lines ->
+  map fst lines = version_line :: map region_line regs ++ map render_row rows ++ bs "##FASTA" :: flines ->
+  regions_of_gff_text (FastaLayout.render lines) =
+  bind (codes rs (length genome)) (fun inter => Ok (TopK.ssort cregion (fun a b => (cr_start a <? cr_start b)%Z) rs, inter)).
+Proof. exact gff_bytes_to_regions. Qed.
+Print Assumptions C14_gff_bytes_to_regions.
